@@ -116,10 +116,43 @@ static void cmd_K(void) {
 
 static void pr(const char* tag, const int* a, int n) { printf(" %s", tag); for (int i = 0; i < n; i++) printf(" %d", a[i]); }
 
+// bodies on which the index spaces body id / root id / weld id / parent id differ: mocap bodies with
+// chains of jointless descendants, jointless chains under the world, jointless children inside moving trees
+static void add_jointless(mjsBody* parent, mjg_rng* r, int depth, const char* tag, int* cnt) {
+  for (int k = 0; k < depth; k++) {
+    mjsBody* ch = mjs_addBody(parent, NULL); char nm[40]; snprintf(nm, sizeof nm, "%s_%d", tag, (*cnt)++); mjs_setName(ch->element, nm);
+    for (int j = 0; j < 3; j++) ch->pos[j] = mjg_range(r, -0.2, 0.2);
+    if (mjg_chance(r, 0.5)) mjg_quat(r, ch->quat);
+    mjsGeom* g = mjs_addGeom(ch, NULL); g->type = mjGEOM_BOX; g->size[0] = g->size[1] = g->size[2] = 0.03; g->contype = 0; g->conaffinity = 0;
+    if (mjg_chance(r, 0.3)) { int c2 = *cnt; add_jointless(ch, r, 1, tag, &c2); *cnt = c2; }   // side branch
+    parent = ch;
+  }
+}
+static void add_extras(mjSpec* s, mjg_rng* r, int nbody) {
+  mjsBody* world = mjs_findBody(s, "world"); int cnt = 0; char nm[40];
+  int nmoc = mjg_int(r, 3);
+  for (int k = 0; k < nmoc; k++) {
+    mjsBody* mb = mjs_addBody(world, NULL); snprintf(nm, sizeof nm, "xmocap%d", k); mjs_setName(mb->element, nm); mb->mocap = 1;
+    for (int j = 0; j < 3; j++) mb->pos[j] = mjg_range(r, -1, 1);
+    mjsGeom* g = mjs_addGeom(mb, NULL); g->type = mjGEOM_SPHERE; g->size[0] = 0.02; g->contype = 0; g->conaffinity = 0;
+    add_jointless(mb, r, mjg_int(r, 4), "xmc", &cnt);
+  }
+  int nst = mjg_int(r, 3);
+  for (int k = 0; k < nst; k++) add_jointless(world, r, 1 + mjg_int(r, 3), "xst", &cnt);
+  for (int b = 0; b < nbody; b++) if (mjg_chance(r, 0.3)) {
+    snprintf(nm, sizeof nm, "b%d", b); mjsBody* pb = mjs_findBody(s, nm);
+    if (pb) add_jointless(pb, r, 1 + mjg_int(r, 2), "xdy", &cnt);
+  }
+}
+
 static void cmd_U(void) {
   int seed, feat, nbody, flg, taseed; rd(&seed); rd(&feat); rd(&nbody); rd(&flg); rd(&taseed);
-  mjModel* m = mjg_model(seed, (unsigned)feat, nbody, NULL);
-  if (!m) { printf("X\n"); return; }
+  mjSpec* sp = mjg_spec(seed, (unsigned)feat, nbody);
+  mjg_rng RX = { (uint64_t)taseed * 104729u + 3 };
+  if (taseed % 4 != 0) add_extras(sp, &RX, nbody);
+  mjModel* m = mj_compile(sp, NULL);
+  if (!m) { fprintf(stderr, "U compile: %s\n", mjs_getError(sp)); mj_deleteSpec(sp); printf("X\n"); return; }
+  mj_deleteSpec(sp);
   mjData* d = mj_makeData(m);
   mjg_rng R = { (uint64_t)taseed * 7919u + 17 };
   int mode = mjg_int(&R, 3);
@@ -190,8 +223,21 @@ static void run_pipe(void) {
   // piles
   int b = 0, pile = 0; double pilex[MAXBOX], piley[MAXBOX], pileh[MAXBOX]; char nm[32];
   int pile_of[MAXBOX];
+  // variant bit 32: pile 0 stands on a pad that is a jointless child body of a mocap body ("hand"), which
+  // the history moves; variant bit 64: every tree has sleep policy "never" (twin comparison on every step)
+  int with_mocap = (variant & 32) != 0, all_never = (variant & 64) != 0;
+  double padtop = 0;
+  if (with_mocap) {
+    mjsBody* hand = mjs_addBody(w, NULL); mjs_setName(hand->element, "hand"); hand->mocap = 1;
+    hand->pos[0] = -0.3; hand->pos[2] = 0.25;
+    mjsGeom* mg = mjs_addGeom(hand, NULL); mg->type = mjGEOM_SPHERE; mg->size[0] = 0.01; mg->contype = 0; mg->conaffinity = 0;
+    mjsBody* pad = mjs_addBody(hand, NULL); mjs_setName(pad->element, "pad"); pad->pos[0] = 0.3;
+    mjsGeom* pg = mjs_addGeom(pad, NULL); pg->type = mjGEOM_BOX; pg->size[0] = pg->size[1] = 0.25; pg->size[2] = 0.02;
+    mjs_setName(pg->element, "gpad");
+    padtop = 0.27;
+  }
   while (b < nbox) {
-    int hgt = 1 + mjg_int(r, 3); double z = 0, hs = mjg_range(r, 0.08, 0.11);
+    int hgt = 1 + mjg_int(r, 3); double z = pile == 0 ? padtop : 0, hs = mjg_range(r, 0.08, 0.11);
     pilex[pile] = 0.7 * (pile % 4); piley[pile] = 0.7 * (pile / 4);
     for (int k = 0; k < hgt && b < nbox; k++, b++) {
       mjsBody* bd = mjs_addBody(w, NULL); snprintf(nm, sizeof nm, "box%d", b); mjs_setName(bd->element, nm);
@@ -201,7 +247,7 @@ static void run_pipe(void) {
       mjsGeom* bg = mjs_addGeom(bd, NULL); bg->type = mjGEOM_BOX; bg->size[0] = bg->size[1] = h; bg->size[2] = h;
       snprintf(nm, sizeof nm, "gbox%d", b); mjs_setName(bg->element, nm);
       int p = mjg_int(r, 10);
-      bd->sleep = all_init ? mjSLEEP_INIT : p == 0 ? mjSLEEP_NEVER : p == 1 ? mjSLEEP_ALLOWED : mjSLEEP_AUTO;
+      bd->sleep = all_init ? mjSLEEP_INIT : (p == 0 || all_never) ? mjSLEEP_NEVER : p == 1 ? mjSLEEP_ALLOWED : mjSLEEP_AUTO;
       pile_of[b] = pile;
     }
     pileh[pile] = z; pile++;
@@ -211,7 +257,7 @@ static void run_pipe(void) {
   { mjsBody* bd = mjs_addBody(w, NULL); mjs_setName(bd->element, "bullet"); bd->pos[0] = -2; bd->pos[1] = -2; bd->pos[2] = brad + 0.0005;
     mjs_addFreeJoint(bd); mjsGeom* bg = mjs_addGeom(bd, NULL); bg->type = mjGEOM_SPHERE; bg->size[0] = brad; bg->density = 3000;
     mjs_setName(bg->element, "gbullet");
-    int p = mjg_int(r, 3); bd->sleep = all_init ? mjSLEEP_INIT : p == 0 ? mjSLEEP_NEVER : mjSLEEP_AUTO; }
+    int p = mjg_int(r, 3); bd->sleep = all_init ? mjSLEEP_INIT : (p == 0 || all_never) ? mjSLEEP_NEVER : mjSLEEP_AUTO; }
   // connect equalities between boxes of different piles
   int neq = (nbox >= 2) ? mjg_int(r, 3) : 0;
   for (int k = 0; k < neq; k++) {
@@ -261,7 +307,7 @@ static void run_pipe(void) {
     double u = mjg_u(r);
     if (frc_left > 0) { if (--frc_left == 0) { mju_zero(d->xfrc_applied, 6 * m->nbody); mju_zero(d->qfrc_applied, m->nv); mju_zero(d2->xfrc_applied, 6 * m->nbody); mju_zero(d2->qfrc_applied, m->nv); poke = 9; } }
     else if (u < 0.012) {
-      poke = 1 + mjg_int(r, 8); ptree = mjg_int(r, nt);
+      poke = 1 + mjg_int(r, m->nmocap ? 11 : 8); if (poke >= 9) poke = 10; ptree = mjg_int(r, nt);
       int body = m->tree_bodyadr[ptree], qa = m->jnt_qposadr[m->body_jntadr[body]], da = m->tree_dofadr[ptree];
       switch (poke) {
         case 1: { double dx = mjg_chance(r, 0.5) ? 0.03 : 1e-9; int ax = mjg_int(r, 3); if (ax == 2) dx = fabs(dx); d->qpos[qa + ax] += dx; d2->qpos[qa + ax] += dx; break; }
@@ -276,6 +322,8 @@ static void run_pipe(void) {
           for (int i = 0; i < 6; i++) { d->qvel[bd_ + i] = v[i]; d2->qvel[bd_ + i] = v[i]; }
           ptree = bullet_tree; break; }
         case 7: if (m->neq) { int e = mjg_int(r, m->neq); d->eq_active[e] ^= 1; d2->eq_active[e] = d->eq_active[e]; ptree = e; } else poke = 0; break;
+        case 10: { double dx[3] = { mjg_range(r, -0.02, 0.02), mjg_range(r, -0.02, 0.02), mjg_range(r, -0.004, 0.004) };
+          for (int i = 0; i < 3; i++) { d->mocap_pos[i] += dx[i]; d2->mocap_pos[i] += dx[i]; } ptree = -1; break; }
         case 8: if (mjg_chance(r, 0.15)) { mj_resetData(m, d); mj_resetData(m2, d2); synced = 1; for (int t = 0; t < nt; t++) if (d->tree_asleep[t] >= 0) synced = 0; } else poke = 0; break;
       }
     }
@@ -296,7 +344,8 @@ static void run_pipe(void) {
     for (int c = 0; c < d->ncon; c++) {
       const mjContact* con = d->contact + c;
       if (con->geom[0] < 0 || con->geom[1] < 0) continue;
-      printf(" %d:%d", m->body_treeid[m->geom_bodyid[con->geom[0]]], m->body_treeid[m->geom_bodyid[con->geom[1]]]);
+      int cb[2]; for (int q = 0; q < 2; q++) { int bb = m->geom_bodyid[con->geom[q]]; cb[q] = m->body_treeid[bb]; if (cb[q] < 0 && m->body_mocapid[m->body_rootid[bb]] >= 0) cb[q] = -2; }
+      printf(" %d:%d", cb[0], cb[1]);
     }
     printf(" | eq");
     for (int e = 0; e < m->neq; e++) if (d->eq_active[e] && m->eq_type[e] == mjEQ_CONNECT && m->eq_objtype[e] == mjOBJ_BODY)
@@ -325,7 +374,9 @@ static void run_pipe(void) {
       cmp = memcmp(d->qpos, d2->qpos, sizeof(mjtNum) * m->nq) == 0 && memcmp(d->qvel, d2->qvel, sizeof(mjtNum) * m->nv) == 0 &&
             memcmp(d->qacc, d2->qacc, sizeof(mjtNum) * m->nv) == 0 && memcmp(&d->time, &d2->time, sizeof(mjtNum)) == 0 &&
             d->ncon == d2->ncon && d->nefc == d2->nefc &&
-            memcmp(d->qfrc_constraint, d2->qfrc_constraint, sizeof(mjtNum) * m->nv) == 0;
+            memcmp(d->qfrc_constraint, d2->qfrc_constraint, sizeof(mjtNum) * m->nv) == 0 &&
+            memcmp(d->xpos, d2->xpos, sizeof(mjtNum) * 3 * m->nbody) == 0 && memcmp(d->xquat, d2->xquat, sizeof(mjtNum) * 4 * m->nbody) == 0 &&
+            memcmp(d->geom_xpos, d2->geom_xpos, sizeof(mjtNum) * 3 * m->ngeom) == 0 && memcmp(d->geom_xmat, d2->geom_xmat, sizeof(mjtNum) * 9 * m->ngeom) == 0;
     } else if (!nasleep) {
       // everything awake again: restart the comparison from a copy of the sleep-enabled state
       mj_copyData(d2, m2, d); synced = 1; cmp = -2;
